@@ -146,6 +146,32 @@ Definition render_own (fs : fsys) (rs : list sref) (p : piece) : piece :=
 Definition spec_own (fs : fsys) (rs : list sref) (ps : list piece) : string :=
   flatten (map (render_own fs rs) ps).
 
+(* ---- repeated resolution on one live graph.  resolveArguments keeps nothing between two calls: every
+   call asks DataReference.resolve again, so what it answers is a function of the references, the
+   argument string and the file system AT THE TIME OF THE CALL (None: it raises).  A session is a
+   sequence of calls (through ComponentSpecification.resolveArguments, Job.resolveArguments or
+   Job.command.arguments: the last two hand over to the first) between which the files of the
+   producers are rewritten, created or deleted: one file system per call. *)
+Definition resolve_on (fs : fsys) (rs : list sref) (args : string) : option string :=
+  match to_drefs fs rs with
+  | Some ds => Some (resolve_args ds args)
+  | None => None
+  end.
+Definition session (rs : list sref) (args : string) (fss : list fsys) : list (option string) :=
+  map (fun fs => resolve_on fs rs args) fss.
+(* the specification of one call: the token-wise substitution with the values of THAT file system *)
+Definition spec_on (fs : fsys) (rs : list sref) (ps : list piece) : option string :=
+  match to_drefs fs rs with
+  | Some _ => Some (spec_own fs rs ps)
+  | None => None
+  end.
+(* the hypothesis of C10_exact for the values a file system gives *)
+Definition separated_onb (fs : fsys) (rs : list sref) (ps : list piece) : bool :=
+  match to_drefs fs rs with
+  | Some ds => separatedb ds ps
+  | None => true
+  end.
+
 (* ---- correspondence checker for the values:
    case = ((reference, file system), ((absoluteReference, relativeReference), outcome of resolve))
    outcome: "V" ++ value | name of the exception class *)
@@ -165,3 +191,13 @@ Definition check_value (c : (sref * fsys) * ((string * string) * string)) : bool
 Definition check_dref (c : (sref * fsys) * dref) : bool :=
   let '((r, fs), d) := c in
   match to_dref fs r with Some d' => dref_eqb d' d | None => false end.
+
+(* ---- correspondence checker for one call of a session:
+   case = (((references in the order the code iterates, pieces), file system walked just before the call),
+           what the call returned: "V" ++ resolved string | "E" (it raised)) *)
+Definition shown (o : option string) : string := match o with Some v => "V" ++ v | None => "E" end.
+Definition check_live (c : ((list sref * list piece) * fsys) * string) : bool :=
+  let '(((rs, ps), fs), out) := c in
+  String.eqb (shown (resolve_on fs rs (flatten ps))) out &&
+  same_tokenisation ps &&
+  (negb (separated_onb fs rs ps) || String.eqb (shown (spec_on fs rs ps)) out).
